@@ -417,7 +417,7 @@ func c08r3(c *an.Ctx) {
 		dataOK := false
 		an.Instrs(pf, func(in ssa.Instruction) {
 			st, ok := in.(*ssa.Store)
-			if !ok || an.PathOf(st.Addr).Last() == nil || an.PathOf(st.Addr).Last().Name() != "Data" {
+			if !ok || an.PathOf(st.Addr).Last() == nil || nameOf(an.PathOf(st.Addr).Last()) != "Data" {
 				return
 			}
 			if sl, ok := st.Val.(*ssa.Slice); ok && okS && sl.X == rem.X && sl.High == rem.Low && sl.Low == nil {
@@ -564,7 +564,7 @@ func sliceOfExactRead(in ssa.Instruction) bool {
 		return false
 	}
 	callee := call.Common().StaticCallee()
-	if callee == nil || callee.Name() != "readExactly" {
+	if callee == nil || nameOf(callee) != "readExactly" {
 		return false
 	}
 	n, isC := an.ConstInt(call.Common().Args[1])
